@@ -176,6 +176,9 @@ class RealPipe:
             self.closing = True
 
 
+_STALL_SEQ = 0
+
+
 class RealNet:
     """Stands for SimNet's World towards the peer models; owns listeners, connection threads and the resolver."""
 
@@ -244,10 +247,23 @@ class RealNet:
                 if f["kind"] == "refuse":
                     addr = (self._ip(250), port)  # nothing listens there: the connect is refused
                 else:  # connect-stall: a listener whose accept queue is full and never drained
-                    addr = (self._ip(251), port)
-                    s = socket.socket()
-                    s.setsockopt(socket.SOL_SOCKET, socket.SO_REUSEADDR, 1)
-                    s.bind(addr)
+                    # (its own address per occurrence: the listener of an earlier stall case lives until it gives up, GIVE_UP seconds later)
+                    global _STALL_SEQ
+                    s = None
+                    for _try in range(30):
+                        _STALL_SEQ += 1
+                        addr = (self._ip(205 + _STALL_SEQ % 45), port)
+                        cand = socket.socket()
+                        cand.setsockopt(socket.SOL_SOCKET, socket.SO_REUSEADDR, 1)
+                        try:
+                            cand.bind(addr)
+                            s = cand
+                            break
+                        except OSError:
+                            cand.close()
+                    if s is None:
+                        self.errors.append(f"cannot create the stalling listener for {name} on port {port}: every candidate address is in use")
+                        raise socket.gaierror(socket.EAI_FAIL, "harness could not create the listener")
                     s.listen(0)
                     self.filler.append(s)
                     for _ in range(2):
